@@ -630,6 +630,10 @@ pub fn generate(stream: &str, tier: &str, seed: u64) -> Vec<String> {
 /// `l1.store`: random operation sequences through one storage manager (C15 / C16).
 pub fn gen_store(rng: &mut Rng, thorough: bool, out: &mut Vec<String>) {
     let ncases = if thorough { 400 } else { 60 };
+    // a flush in every state of the manager, after another writer changed the database behind the cache
+    for _ in 0..(if thorough { 4 } else { 1 }) {
+        out.push(format!("o.st.flushprobe {}", rng.below(1 << 30)));
+    }
     for case in 0..ncases {
         let mode = match case % 4 { 0 => "nocache", 3 => "tiny", _ => "cache" };
         out.push(format!("st.reset {mode}"));
@@ -974,6 +978,7 @@ pub fn gen_vrf(rng: &mut Rng, thorough: bool, out: &mut Vec<String>) {
             out.push(format!("vrfin {cfg} {} {} {}", hex_or_dash(&l), if len % 2 == 0 { "F" } else { "S" }, 0x0102_0304_0506_0700u64 + (len as u64 % 3)));
         }
         out.push(format!("o.vrfin.sweep {cfg} {}", if thorough { 1100 } else { 320 }));
+        out.push(format!("o.vrf.batch {cfg} {} {}", if thorough { 400 } else { 120 }, rng.below(1 << 30)));
         // the oracle over the public API (each line runs ~260 verifications)
         let nl = if thorough { labels.len() } else { 5 };
         for l in labels.iter().take(nl) {
@@ -1061,6 +1066,15 @@ pub fn gen_sched(rng: &mut Rng, thorough: bool, out: &mut Vec<String>) {
         out.push(format!("sch.enum {} {a} | {b} | {c}", bound.min(2)));
         out.push(format!("sch.enum {} {c} | {a} | {b}", bound.min(2)));
         out.push(format!("sch.enum {} {b} | {c} | {a}", bound.min(2)));
+        // "each call either fails without effect ...": the n-th single-record read of one publish fails (before, in the
+        // middle of and after its first writes into the transaction) while the other publishes wait for the lock
+        let (a, b, c) = (format!("{} {}", pair(rng, 0), pair(rng, 4)), format!("{} {}", pair(rng, 1), pair(rng, 2)), pair(rng, 3));
+        for n in 0..(if thorough { 16 } else { 12 }) {
+            out.push(format!("sch.enum 1 fault:0:{n} {a} | {b}"));
+        }
+        for n in [1, 4, 7, 10] {
+            out.push(format!("sch.enum 1 fault:1:{n} {c} | {a} | {b}"));
+        }
         if !thorough {
             break;
         }
